@@ -84,6 +84,33 @@ def rule_workqueue(ctx, rep, rid):
         # STOP is tested after the queue was drained in the same iteration: items queued before destroy are executed
         rep.must_pass(rid, "worker.drain≺STOP-test", w, [w.entry()], [w.blocks[b].insts[-1] for b, _ in stop_edges], lambda i: i in qrd, include_start=True,
                       what="the queue is examined (spliced if non-empty) before STOP is tested")
+    hit, _ = w.reach([w.entry()], list(rets), include_start=True)
+    rep.check(hit is not None and bool(rets), rid, "worker.can-exit", "the worker can leave its loop and return (destroy joins it)", "the worker thread can never return: urcu_workqueue_destroy blocks in pthread_join for ever", [w.name])
+    # the private batch queue: re-initialised before every splice, and a grabbed batch is always iterated
+    loc = lambda e: e is not None and e.ap is not None and ir.ap_str(w, e.ap).startswith("local:")
+    app = [e.inst for e in pat.accesses(w, None, ("xchg",)) if loc(e)]
+    init = [i for i in w.all_insts() if i.op == "store" and loc(mm.effect_of(i)) and any(l[0] in ("_cds_wfcq_init", "___cds_wfcq_init", "cds_wfcq_init") for l in (i.loc or ()))]
+    walk = [i for i in w.all_insts() if i.op == "load" and loc(mm.effect_of(i)) and pat.last_field(i.d["ap"]) == "cds_wfcq_node.next" and "head" in ir.ap_str(w, i.d["ap"])]
+    if not app:
+        rep.bad(rid, "worker.batch", "the worker does not splice its queue into a private batch queue", [w.name])
+    else:
+        if len(init) < 2:
+            rep.bad(rid, "worker.batch-init", "the private batch queue is not initialised (head.next = NULL, tail = head) before the splice appends to it", [app[0].where()])
+        else:
+            heads = [i for i in init if "head" in ir.ap_str(w, i.d["ap"])]
+            tails = [i for i in init if i not in heads]
+            for nm, grp in (("head", heads), ("tail", tails)):
+                rep.must_pass(rid, "worker.batch-init." + nm, w, [w.entry()], app, lambda i, grp=grp: i in grp, include_start=True, what="the private queue's %s is initialised before the splice" % nm)
+                rep.must_pass(rid, "worker.batch-reinit." + nm, w, app, app, lambda i, grp=grp: i in grp, what="the private queue's %s is re-initialised before the next splice" % nm)
+        stop_tests = [w.blocks[b].insts[-1] for b, _ in stop_edges]
+        if walk and stop_tests:
+            # once the append happened the splice result is DEST_EMPTY / DEST_NON_EMPTY (C10.splice): edges taken only for
+            # SRC_EMPTY are not continuations of a path through the append
+            SRC_EMPTY = w.mod.enum("cds_wfcq_ret", "CDS_WFCQ_RET_SRC_EMPTY")
+            pat.require(SRC_EMPTY is not None, "enum cds_wfcq_ret")
+            infeasible = set((t.blk.id, s_) for t, s_, a in pat.branch_edges_on(w, lambda a: a[0] == "eq" and a[1][0] == "phi" and a[2] == ("c", SRC_EMPTY)))
+            rep.must_pass(rid, "worker.batch-run", w, app, stop_tests, lambda i: i in walk, edge_ok=pat.block_edge_filter(infeasible),
+                          what="a grabbed batch is iterated (its items run) before the worker looks at STOP / sleeps")
     # ---- C. creation: the worker thread exists ----------------------------------------------------------------------------
     for name in ("urcu_workqueue_create", "urcu_workqueue_create_worker"):
         c = _f(ctx, name)
